@@ -141,13 +141,16 @@ pub fn case_fn(_sub: &str, case: &Case, stats: &mut Stats) -> Result<(), String>
         Ok(d) => {
             let ranged = st.trie.edges.iter().any(|e| e.2.min < e.2.max);
             let superset = matches!(compare_default(&union_nfa(&cl, &trie), &trie), Ok(Diff::Equal));
-            if cfg.repetitions && ranged && superset {
+            if cfg.repetitions && ranged && superset && trie_matches_merge_model(&st, cfg) {
                 known_ok("KF-merge", stats)?;
             } else {
                 return Err(format!("the trie does not accept exactly the union of the clusters: {}", show(&d)));
             }
         }
         Err(e) => inconclusive(e, stats),
+    }
+    if cfg.repetitions {
+        stats.class(if trie_matches_merge_model(&st, cfg) { "merge-model=agrees" } else { "merge-model=DISAGREES" });
     }
     // 3. trie = minimised
     match diff(&trie, &min) {
